@@ -31,7 +31,7 @@ theorem Items.starRun {g e k inp ts rest} (h : Items g e k inp ts rest) (hf : Fa
 
 /-- `g` is consumed item by item by the repetition body `body`, whatever text follows. -/
 def IsGap (body : Expr) (g : List Char) : Prop :=
-  ∀ next, ∃ ts, Items grammar body (g.length + 20) (g ++ next) ts next ∧ ts.length ≤ g.length
+  ∀ next, ∃ ts, Items grammar body (g.length + 60) (g ++ next) ts next ∧ ts.length ≤ g.length
 
 theorem IsGap.nil (body : Expr) : IsGap body [] := fun _ => ⟨[], .nil, Nat.le_refl _⟩
 
@@ -167,9 +167,9 @@ theorem uBody_fails_tok (x : List Char) (h : TokHead x) : FailsOn grammar uBody 
 
 /-- Rule `_` consumes exactly a gap of its kind when a token (or the end) follows. -/
 theorem u_consumes (g next : List Char) (hg : IsGap uBody g) (hn : TokHead next) :
-    ∃ ts, ParsesTo grammar (.ref "_") (g ++ next) (.seq ts) next (2 * g.length + 30) := by
+    ∃ ts, ParsesTo grammar (.ref "_") (g ++ next) (.seq ts) next (2 * g.length + 70) := by
   obtain ⟨ts, hi, hl⟩ := hg next
-  have h1 := ParsesTo.star ((hi.mono (by omega : g.length + 20 ≤ g.length + 25)).starRun ((uBody_fails_tok next hn).mono (by omega)))
+  have h1 := ParsesTo.star ((hi.mono (by omega : g.length + 60 ≤ g.length + 60)).starRun ((uBody_fails_tok next hn).mono (by omega)))
   have h2 := ParsesTo.ref lk_U (by rw [rule_U_eq]; exact h1)
   exact ⟨ts, h2.mono (by omega)⟩
 
@@ -180,10 +180,76 @@ theorem wsBody_fails (x : List Char) (h : StopsAt wsC x) : FailsOn grammar wsBod
 
 /-- Rule `WS` consumes exactly a run of white space when no white space follows. -/
 theorem ws_consumes (w next : List Char) (hw : IsWs w) (hn : StopsAt wsC next) :
-    ∃ ts, ParsesTo grammar (.ref "WS") (w ++ next) (.seq ts) next (2 * w.length + 30) := by
+    ∃ ts, ParsesTo grammar (.ref "WS") (w ++ next) (.seq ts) next (2 * w.length + 70) := by
   obtain ⟨ts, hi, hl⟩ := hw.gap_ws next
-  have h1 := ParsesTo.star (hi.starRun ((wsBody_fails next hn).mono (by omega : 2 ≤ w.length + 20)))
+  have h1 := ParsesTo.star (hi.starRun ((wsBody_fails next hn).mono (by omega : 2 ≤ w.length + 60)))
   have h2 := ParsesTo.ref lk_WS (by rw [rule_WS_eq]; exact h1)
+  exact ⟨ts, h2.mono (by omega)⟩
+
+theorem tok_ne_hash {x : List Char} (h : TokHead x) : ∀ c r, x = c :: r → c ≠ '#' := by
+  intro c r hx hc
+  subst hc
+  have := h _ r hx
+  revert this; decide
+
+theorem tok_ne_nl {x : List Char} (h : TokHead x) : ∀ c r, x = c :: r → c ≠ '\n' := by
+  intro c r hx hc
+  subst hc
+  have := h _ r hx
+  revert this; decide
+
+theorem lit_fails_head (w : Char) (ws x : List Char) (h : ∀ c r, x = c :: r → c ≠ w) : matchLit false (w :: ws) x = none := by
+  cases x with
+  | nil => rfl
+  | cons c r => simp [matchLit, h c r rfl]
+
+theorem comment_fails_tok (x : List Char) (h : TokHead x) : FailsOn grammar (.ref "Comment") x 30 := by
+  have hs := tok_ne_slash h
+  have h1 : ParsesTo grammar (.notP (.ref "DocString")) x .nil x 11 := ParsesTo.notP (docstring_fails_tok x hs)
+  have hm : FailsOn grammar (.ref "MultiLineComment") x 20 := by
+    have h2 := FailsOn.seq (SeqFail.tail h1 (SeqFail.head (es := [
+      .star (.seq [.notP (.lit ['*', '/'] false), .ref "SourceChar"]), .lit ['*', '/'] false])
+      ((FailsOn.lit (g := grammar) (lit_fails_head '/' ['*'] x hs)).mono (by omega : 1 ≤ 11))))
+    exact (FailsOn.ref lk_MLC (by rw [rule_MultiLineComment]; exact h2)).mono (by simp)
+  have hsl : FailsOn grammar (.ref "SingleLineComment") x 20 := by
+    have a1 := FailsOn.seq (k := 1) (SeqFail.head (es := [.star (.seq [.notP (.ref "EOL"), .ref "SourceChar"])])
+      (FailsOn.lit (g := grammar) (lit_fails_head '/' ['/'] x hs)))
+    have a2 := FailsOn.seq (k := 1) (SeqFail.head (es := [.star (.seq [.notP (.ref "EOL"), .ref "SourceChar"])])
+      (FailsOn.lit (g := grammar) (lit_fails_head '#' [] x (tok_ne_hash h))))
+    have hc : FailsOn grammar rule_SingleLineComment x 10 := by
+      rw [rule_SingleLineComment]
+      refine (FailsOn.choice (k := 5) ?_).mono (by simp)
+      intro e he
+      simp only [List.mem_cons, List.mem_nil_iff, or_false] at he
+      rcases he with rfl | rfl
+      · exact a1.mono (by simp)
+      · exact a2.mono (by simp)
+    exact (FailsOn.ref lk_SLC hc).mono (by omega)
+  have hc : FailsOn grammar rule_Comment x 25 := by
+    rw [rule_Comment]
+    refine (FailsOn.choice (k := 20) ?_).mono (by simp)
+    intro e he
+    simp only [List.mem_cons, List.mem_nil_iff, or_false] at he
+    rcases he with rfl | rfl
+    · exact hm
+    · exact hsl
+  exact (FailsOn.ref lk_Comment hc).mono (by omega)
+
+theorem uuBody_fails_tok (x : List Char) (h : TokHead x) : FailsOn grammar uuBody x 35 := by
+  refine (FailsOn.choice (k := 30) (es := [.ref "Whitespace", .ref "EOL", .ref "Comment"]) ?_).mono (by simp)
+  intro e he
+  simp only [List.mem_cons, List.mem_nil_iff, or_false] at he
+  rcases he with rfl | rfl | rfl
+  · exact (wsRef_fails_tok x h).mono (by omega)
+  · exact (FailsOn.ref lk_EOL (by rw [rule_EOL]; exact FailsOn.lit (lit_fails_head '\n' [] x (tok_ne_nl h)))).mono (by omega)
+  · exact comment_fails_tok x h
+
+/-- Rule `__` consumes exactly a gap of its kind when a token (or the end) follows. -/
+theorem uu_consumes (g next : List Char) (hg : IsGap uuBody g) (hn : TokHead next) :
+    ∃ ts, ParsesTo grammar (.ref "__") (g ++ next) (.seq ts) next (2 * g.length + 70) := by
+  obtain ⟨ts, hi, hl⟩ := hg next
+  have h1 := ParsesTo.star ((hi.mono (by omega : g.length + 60 ≤ g.length + 60)).starRun ((uuBody_fails_tok next hn).mono (by omega)))
+  have h2 := ParsesTo.ref lk_UU (by rw [rule_UU_eq]; exact h1)
   exact ⟨ts, h2.mono (by omega)⟩
 
 end FV.PegIdl
